@@ -23,11 +23,31 @@ def model_dict(m):
     return d
 
 
+def guarded_check(solver, limit_s, *assumptions):
+    """solver.check() with a watchdog: some z3 tactics ignore the 'timeout' parameter during preprocessing; the watchdog
+    thread interrupts the context so that the call returns (unknown) instead of hanging the worker"""
+    import threading
+    fired = []
+    def fire():
+        fired.append(1)
+        try: solver.ctx.interrupt()
+        except Exception: pass
+    tm = threading.Timer(limit_s, fire); tm.daemon = True; tm.start()
+    try:
+        r = solver.check(*assumptions)
+    except z3.Z3Exception:
+        r = z3.unknown
+    finally:
+        tm.cancel()
+    if fired: return z3.unknown
+    return r
+
+
 def check_api(assertions, timeout_s, logic=None):
     s = z3.SolverFor(logic) if logic else z3.Solver()
     s.set('timeout', int(timeout_s * 1000))
     for a in assertions: s.add(a)
-    t = time.time(); r = s.check(); dt = time.time() - t
+    t = time.time(); r = guarded_check(s, timeout_s + 3); dt = time.time() - t
     STATS['api'][0] += 1; STATS['api'][1] += dt
     if r == z3.sat: return 'sat', model_dict(s.model()), dt
     if r == z3.unsat: return 'unsat', None, dt
